@@ -4,6 +4,189 @@
 use super::*;
 use crate::verif_common::*;
 
+use crate::value::{ArgType, Rest, StringInput, StringType, ValueRepr};
+use crate::Environment;
+use crate::vm::State;
+use std::sync::Arc;
+
+fn leaked_state(html: bool) -> State<'static, 'static> {
+    let env: &'static Environment<'static> = Box::leak(Box::new(Environment::empty()));
+    let mut state = State::new_for_env(env);
+    state.auto_escape = if html { AutoEscape::Html } else { AutoEscape::None };
+    state
+}
+
+fn has_raw_meta(s: &str) -> bool {
+    let b = s.as_bytes();
+    let mut i = 0;
+    while i < b.len() {
+        if b[i] == b'<' || b[i] == b'>' || b[i] == b'"' || b[i] == b'\'' {
+            return true;
+        }
+        i += 1;
+    }
+    false
+}
+
+fn sym_meta_byte() -> u8 {
+    let c: u8 = kani::any();
+    kani::assume(c == b'<' || c == b'>' || c == b'"' || c == b'\'' || c == b'&' || c == b'a');
+    c
+}
+
+fn str_value(bytes: &[u8], safe: bool) -> Value {
+    let s = unsafe { core::str::from_utf8_unchecked(bytes) };
+    if safe {
+        Value(ValueRepr::String(Arc::from(s), StringType::Safe))
+    } else {
+        Value(ValueRepr::String(Arc::from(s), StringType::Normal))
+    }
+}
+
+// @verif props=C02 tier=quick cap=900 group=core fns=filters::escape,write_escaped,State::auto_escape
+/// The escape filter, for EVERY 1-2 byte string over {< > " ' & a}, marked safe or not, in a scope with
+/// escaping on or off: a safe input comes back unchanged (not escaped a second time), an unsafe input comes
+/// back marked safe and without any raw metacharacter (the filter falls back to HTML when escaping is off).
+#[kani::proof]
+#[kani::unwind(14)]
+#[kani::stub(std::hash::RandomState::new, crate::verif_common::random_state_stub)]
+#[kani::stub(alloc::fmt::format, crate::verif_common::format_stub)]
+fn c02_escape_filter_exactly_once() {
+    let buf = [sym_meta_byte(), sym_meta_byte()];
+    let len: usize = kani::any();
+    kani::assume(len == 1 || len == 2);
+    let safe: bool = kani::any();
+    let html: bool = kani::any();
+    let v = str_value(&buf[..len], safe);
+    let mut state = leaked_state(html);
+    let r = escape(&mut state, &v);
+    match r {
+        Ok(ref out) => {
+            assert!(out.is_safe());
+            let s = out.as_str().unwrap();
+            if safe {
+                assert!(s.len() == len && s.as_bytes()[0] == buf[0]);
+                assert!(len == 1 || s.as_bytes()[1] == buf[1]);
+            } else {
+                assert!(!has_raw_meta(s));
+                assert!(s.len() >= len);
+            }
+        }
+        Err(_) => assert!(false),
+    }
+    kani::cover!(safe && html);
+    kani::cover!(!safe && !html && buf[0] == b'<');
+    core::mem::forget((r, state, v));
+}
+
+macro_rules! replace_safety_harness {
+    ($name:ident, $vs:expr, $fs:expr, $ts:expr) => {
+        #[kani::proof]
+        #[kani::unwind(14)]
+        #[kani::stub(std::hash::RandomState::new, crate::verif_common::random_state_stub)]
+        #[kani::stub(alloc::fmt::format, crate::verif_common::format_stub)]
+        fn $name() {
+            // value = one symbolic byte, search string "x", replacement = one symbolic byte
+            let vb = [sym_meta_byte()];
+            let tb = [sym_meta_byte()];
+            let html: bool = kani::any();
+            let value = str_value(&vb, $vs);
+            let from = str_value(b"x", $fs);
+            let to = str_value(&tb, $ts);
+            let mut state = leaked_state(html);
+            let a = <StringInput as ArgType>::from_value(Some(&value)).unwrap();
+            let b = <StringInput as ArgType>::from_value(Some(&from)).unwrap();
+            let c = <StringInput as ArgType>::from_value(Some(&to)).unwrap();
+            let r = replace(&mut state, a, b, c);
+            match r {
+                Ok(ref out) => {
+                    let s = out.as_str().unwrap();
+                    // a result marked safe must not carry a raw metacharacter that came from an unsafe input
+                    if out.is_safe() && !$vs {
+                        assert!(!has_raw_meta(s));
+                    }
+                    if !html {
+                        // without auto-escaping: plain replace, never marked safe
+                        assert!(!out.is_safe());
+                        assert!(s.len() == 1 && s.as_bytes()[0] == vb[0]);
+                    }
+                }
+                Err(_) => assert!(false),
+            }
+            kani::cover!(html && vb[0] == b'<');
+            kani::cover!(!html);
+            core::mem::forget((r, state, value, from, to));
+        }
+    };
+}
+
+// @verif-block props=C02 tier=quick cap=1200 group=core doc=replace_filter_safety_flow_for_the_listed_safe/unsafe_assignment_of_(value,_search,_replacement),_value_and_replacement_one_symbolic_byte_over_{<_>_"_'_&_a},_escaping_on_or_off:_a_result_marked_safe_never_contains_a_raw_metacharacter_from_an_unsafe_input;_with_escaping_off_the_result_is_the_plain_replacement_and_not_marked_safe
+replace_safety_harness!(c02_replace_unsafe_safe_unsafe, false, true, false);
+replace_safety_harness!(c02_replace_unsafe_unsafe_safe, false, false, true);
+replace_safety_harness!(c02_replace_unsafe_unsafe_unsafe, false, false, false); // tier=thorough
+// @verif-end
+
+macro_rules! default_filter_harness {
+    ($name:ident, $vk:expr, $nargs:expr) => {
+        #[kani::proof]
+        #[kani::unwind(5)]
+        #[kani::stub(std::hash::RandomState::new, crate::verif_common::random_state_stub)]
+        #[kani::stub(alloc::fmt::format, crate::verif_common::format_stub)]
+        fn $name() {
+            let mk: u8 = kani::any();
+            kani::assume(mk < 4);
+            let mut env = Environment::empty();
+            env.set_undefined_behavior(match mk {
+                0 => crate::UndefinedBehavior::Chainable,
+                1 => crate::UndefinedBehavior::Lenient,
+                2 => crate::UndefinedBehavior::SemiStrict,
+                _ => crate::UndefinedBehavior::Strict,
+            });
+            let env: &'static Environment<'static> = Box::leak(Box::new(env));
+            let state = State::new_for_env(env);
+            // 0: undefined, 1: a defined falsy value (0), 2: a defined truthy value (7)
+            let value = match $vk {
+                0 => Value::UNDEFINED,
+                1 => Value::from(0i64),
+                _ => Value::from(7i64),
+            };
+            let lax: bool = kani::any();
+            let mut args = Vec::with_capacity(2);
+            if $nargs >= 1 {
+                args.push(Value::from(42i64));
+            }
+            if $nargs >= 2 {
+                args.push(Value::from(lax));
+            }
+            let r = default(&state, &value, Rest(args));
+            let expect_fallback = $vk == 0 || ($vk == 1 && $nargs == 2 && lax);
+            match r {
+                Ok(ref out) => match &out.0 {
+                    ValueRepr::I64(x) => {
+                        assert!(*x == if expect_fallback { 42 } else if $vk == 1 { 0 } else { 7 });
+                        assert!(!(expect_fallback && $nargs == 0));
+                    }
+                    ValueRepr::SmallStr(_) | ValueRepr::String(..) => assert!(expect_fallback && $nargs == 0),
+                    _ => assert!(false),
+                },
+                // the default filter never fails, whatever the undefined mode
+                Err(_) => assert!(false),
+            }
+            kani::cover!(mk == 3);
+            kani::cover!(mk == 0 && lax);
+            core::mem::forget((r, state, value));
+        }
+    };
+}
+
+// @verif-block props=C12 tier=quick cap=900 group=core doc=the_default_filter_on_(undefined_|_defined_falsy_0_|_defined_truthy_7)_with_0,_1_or_2_arguments_(second_=_symbolic_boolean_lax_flag)_under_ALL_4_undefined_modes:_never_fails;_undefined_->_fallback,_falsy_->_fallback_only_with_lax=true,_otherwise_the_value_itself
+default_filter_harness!(c12_default_undefined_lax_arg, 0, 2);
+default_filter_harness!(c12_default_undefined_one_arg, 0, 1);
+default_filter_harness!(c12_default_undefined_no_arg, 0, 0);
+default_filter_harness!(c12_default_falsy_lax_arg, 1, 2);
+default_filter_harness!(c12_default_truthy_lax_arg, 2, 2); // tier=thorough
+// @verif-end
+
 #[cfg(test)]
 mod playback {
     use super::*;
